@@ -673,6 +673,19 @@ Proof. destruct colon; vm_compute; reflexivity. Qed.
 Lemma iso_names_nodup colon : has_dup (iso_names colon) = false.
 Proof. destruct colon; vm_compute; reflexivity. Qed.
 
+Lemma parse_match_ok rs zones lname loc now time fmt names r ms :
+  find_locale lname = Some loc ->
+  forallb (fun p => match p with FLit _ => true | _ => false end) (ff_tokenize (S (length (re_escape fmt))) [] (re_escape fmt)) = false ->
+  parse_pattern loc fmt = Ok (names, r) -> has_dup names = false ->
+  search_anchored r time = true -> sub_matches (S (length time)) r time = Some ms ->
+  parse rs zones lname now time fmt = parse_finish rs zones loc names ms now.
+Proof.
+  intros Hl Ht Hp Hd Hs Hm. unfold parse. cbv zeta. rewrite Ht, Hl.
+  unfold parse_pattern in Hp. cbv zeta in Hp.
+  destruct (assemble loc (ff_tokenize (S (length (re_escape fmt))) [] (re_escape fmt))) as [els|e]; [|discriminate].
+  cbn [bind] in Hp. injection Hp as Hn Hr. cbn [bind]. rewrite Hn, Hr, Hd, Hs, Hm. reflexivity.
+Qed.
+
 Section InversePartial.
   Variables (rs : bool) (zones : list str) (now : pnow) (colon : bool) (t : pdt).
   Hypothesis Hrange : dt_in_range t.
@@ -690,12 +703,7 @@ Section InversePartial.
     Ok (t_year t, t_month t, t_day t, t_hour t, t_minute t, t_second t, t_micro t, Some (TzFixed (t_off t))).
   Proof.
     rewrite (iso_format colon t Hyear). cbn [bind].
-    unfold parse. cbv zeta. rewrite iso_has_tokens, en_locale_is_en.
-    unfold parse_pattern in Hpat. cbv zeta in Hpat.
-    destruct (assemble loc_en (ff_tokenize (S (length (re_escape (iso_fmt colon)))) [] (re_escape (iso_fmt colon)))) as [els|e] eqn:Ea;
-      [|discriminate].
-    cbn [bind] in Hpat. injection Hpat as Hn Hr.
-    cbn [bind]. rewrite Hn, Hr, iso_names_nodup, Hsearch. cbn [negb]. rewrite Hsub.
+    rewrite (parse_match_ok rs zones _ loc_en now _ _ _ r _ en_locale_is_en (iso_has_tokens colon) Hpat (iso_names_nodup colon) Hsearch Hsub).
     apply parse_finish_iso. exact Hrange.
   Qed.
 End InversePartial.
@@ -722,4 +730,61 @@ Proof.
   unfold parse_pattern in Hp. cbv zeta in Hp.
   destruct (assemble loc (ff_tokenize (S (length (re_escape fmt))) [] (re_escape fmt))) as [els|e]; [|discriminate].
   cbn [bind] in Hp. injection Hp as Hn Hr. cbn [bind]. rewrite Hn, Hr, Hd, Hs. reflexivity.
+Qed.
+
+Lemma day_datetime_composition : forall t,
+  string_helper [116;111;95;100;97;121;95;100;97;116;101;116;105;109;101;95;115;116;114;105;110;103] t =
+  bind (tbl_get (l_days_abbr loc_en) (weekday0 (ordn t))) (fun dn =>
+  bind (tbl_get (l_months_abbr loc_en) (t_month t)) (fun mn =>
+  Ok (dn ++ [44] ++ [32] ++ mn ++ [32] ++ render_d (t_day t) ++ [44] ++ [32] ++ render_d (t_year t) ++ [32]
+      ++ render_d (hour12 (t_hour t)) ++ [58] ++ render_0wd 2 (t_minute t) ++ [32]
+      ++ match (if 12 <=? t_hour t then l_pm loc_en else l_am loc_en) with Some s => s | None => [] end))).
+Proof. named_format tt. Qed.
+
+Lemma iso8601_composition : forall t,
+  string_helper [116;111;95;105;115;111;56;54;48;49;95;115;116;114;105;110;103] t =
+  Ok (if t_has_tz t && str_eqb (t_zone t) UTC_name
+      then replace_all (S (length (isoformat_T t))) (isoformat_T t) plus0000 [90] else isoformat_T t).
+Proof. intros t. reflexivity. Qed.
+
+(* ------------------------------------------------------------------ packaged token statements *)
+Lemma tok_Z_minutes rec loc t : t_has_tz t = true -> t_off t mod 60 = 0 ->
+  format_token rec loc t T_Z = Ok ((if 0 <=? t_off t then 43 else 45) :: render_0wd 2 (Z.abs (t_off t) / 3600)
+                                   ++ [58] ++ render_0wd 2 (Z.abs (t_off t) / 60 mod 60)).
+Proof. intros H1 H2. rewrite tok_Z, (format_offset_minutes t true H1 H2). reflexivity. Qed.
+Lemma tok_ZZ_minutes rec loc t : t_has_tz t = true -> t_off t mod 60 = 0 ->
+  format_token rec loc t T_ZZ = Ok ((if 0 <=? t_off t then 43 else 45) :: render_0wd 2 (Z.abs (t_off t) / 3600)
+                                    ++ render_0wd 2 (Z.abs (t_off t) / 60 mod 60)).
+Proof. intros H1 H2. rewrite tok_ZZ, (format_offset_minutes t false H1 H2). reflexivity. Qed.
+
+Lemma tok_A_en rec t : format_token rec loc_en t T_A = Ok (if 12 <=? t_hour t then [80;77] else [65;77]).
+Proof. rewrite tok_A. destruct (12 <=? t_hour t); reflexivity. Qed.
+Lemma tok_MMMM_en rec t : 1 <= t_month t <= 12 ->
+  format_token rec loc_en t T_MMMM = Ok (nth (Z.to_nat (t_month t - 1)) en_month_names []).
+Proof. intros H. rewrite tok_MMMM. apply en_month_wide. exact H. Qed.
+Lemma tok_MMM_en rec t : 1 <= t_month t <= 12 ->
+  format_token rec loc_en t T_MMM = Ok (firstn 3 (nth (Z.to_nat (t_month t - 1)) en_month_names [])).
+Proof. intros H. rewrite tok_MMM. apply en_month_abbr. exact H. Qed.
+Lemma tok_dddd_en rec t : format_token rec loc_en t T_dddd = Ok (nth (Z.to_nat (weekday0 (ordn t))) en_day_names []).
+Proof. rewrite tok_dddd. apply en_day_wide. unfold weekday0. lia. Qed.
+
+Lemma nl_e_raises rec t : format_token rec loc_nl t T_e = Raise E_TypeError.
+Proof. apply tok_e_none. reflexivity. Qed.
+
+Lemma localized_names_total l : In l locales ->
+  (forall m, 1 <= m <= 12 -> (exists c s, tbl_get (l_months_wide l) m = Ok (c :: s)) /\ (exists c s, tbl_get (l_months_abbr l) m = Ok (c :: s))) /\
+  (forall w, 0 <= w <= 6 -> (exists c s, tbl_get (l_days_wide l) w = Ok (c :: s)) /\ (exists c s, tbl_get (l_days_abbr l) w = Ok (c :: s))
+                            /\ (exists c s, tbl_get (l_days_short l) w = Ok (c :: s))).
+Proof.
+  intros Hl. destruct (locale_names_ok_parts l Hl) as (A & B & C & D & E).
+  split; intros k Hk; repeat split; eauto using names_ok_total.
+Qed.
+
+Lemma localized_names_injective l : In l locales ->
+  (forall a b x, 1 <= a <= 12 -> 1 <= b <= 12 -> tbl_get (l_months_wide l) a = Ok x -> tbl_get (l_months_wide l) b = Ok x -> a = b) /\
+  (forall a b x, 1 <= a <= 12 -> 1 <= b <= 12 -> tbl_get (l_months_abbr l) a = Ok x -> tbl_get (l_months_abbr l) b = Ok x -> a = b) /\
+  (forall a b x, 0 <= a <= 6 -> 0 <= b <= 6 -> tbl_get (l_days_wide l) a = Ok x -> tbl_get (l_days_wide l) b = Ok x -> a = b).
+Proof.
+  intros Hl. destruct (locale_names_ok_parts l Hl) as (A & B & C & D & E).
+  repeat split; intros a b x Ha Hb Hx Hy; eauto using names_ok_injective.
 Qed.
